@@ -32,10 +32,10 @@ reverse lookups by C18 (trace validation) — and the remaining glue (unknown sy
 Ok(()) without sending; Err/Pending of a transport -> Ok(())) is modelled (`SendNeverFails`) but only
 exercised at the TransportsSender level: every poll_send result observed here is Ok.
 
-Mutation self-tests done while building (see final report): ascending prefix sort in
-IpTransports::bind -> VIOLATION (datagram leaves the shorter-prefix socket); default fallback
-removed -> VIOLATION (dropped although a default socket exists); `is_valid_send_addr` source
-match ignoring wildcard sockets -> VIOLATION.  Undoing each -> exit 0.
+Mutation self-test done while building: ascending prefix sort for IPv4 in IpTransports::bind
+(`ip_v4.sort_by_key(|i| i.config.prefix_len())`) -> `VIOLATION property=C19`, kind wrong_socket,
+got_prefix_shorter (e.g. binds [addr 0/0; addr 0/1], destination 0: the datagram left the /0
+socket although the /1 socket contains it); undone -> exit 0.
 """
 import json
 
